@@ -89,6 +89,8 @@ fn main() {
                         scen_buf::run_exhaustive(7, 4, &mut out)
                     }
                 }
+                "cmd" => scen_exec::run_cmd(&mut out),
+                "starve" => scen_exec::run_starve(seed, tier, &mut out),
                 "listops" => scen_exec::run_listops(seed, tier, &mut out),
                 "vecgrid" => scen_exec::run_vecgrid(seed, tier, &mut out),
                 "codeops" => scen_exec::run_codeops(seed, tier, args.get(5).map(|s| s.as_str()).unwrap_or("CODE."), &mut out),
